@@ -147,6 +147,29 @@ pub fn gen_jitter_spec(rng: &mut Prng, prop: &str, allowed: &[CF], c16_bias: boo
             };
             spec.ops.retain(|o| !matches!(o, Op::SetRounds(_)));
             spec.ops.splice(0..0, first_ops);
+            // sometimes the SECOND collection is crafted as well: it returns the value the first one
+            // returned (a fixed point of the collection: "new output == previous output")
+            if r >= 2 && rng.chance(1, 2) {
+                let v1 = {
+                    let mut p = 0u64;
+                    for x in &d {
+                        p = crate::models::jitter::lfsr_fold(p, *x as u64).rotate_left(7);
+                    }
+                    crate::models::jitter::stir(p)
+                };
+                if let Some(d2) = crate::craft::solve_deltas_from(rng, v1, r + 1, crate::craft::MASK_ALL, v1) {
+                    // lay the second collection directly behind the first (its own priming reading first)
+                    let cl = spec_clock_insert(&mut clock, 1 + 3 * (r + 1), rng, &d2);
+                    for m in marks.iter_mut() {
+                        if m.0 >= (1 + 3 * (r + 1)) as u32 {
+                            m.0 += cl;
+                        }
+                    }
+                    spec.ops.retain(|o| matches!(o, Op::U32 | Op::U64 | Op::Fill(_)));
+                    spec.ops.splice(0..0, vec![Op::U64]);
+                    spec.variant = "jitter_history_crafted_repeat".into();
+                }
+            }
         }
     }
     spec.clock = Some(clock);
@@ -154,6 +177,29 @@ pub fn gen_jitter_spec(rng: &mut Prng, prop: &str, allowed: &[CF], c16_bias: boo
     // the process's logging configuration: Trace level enabled in one run out of six
     spec.logger = rng.chance(1, 6);
     spec
+}
+
+/// insert the readings of one crafted collection at index `at` of the script (shifting the rest in
+/// time so that the following deltas stay what they were); returns the number of readings inserted
+fn spec_clock_insert(clock: &mut crate::seams::clock::ClockSpec, at: usize, rng: &mut Prng, deltas: &[u32]) -> u32 {
+    let at = at.min(clock.readings.len());
+    let t0 = if at == 0 { 1000 } else { clock.readings[at - 1] };
+    let mut t = t0.wrapping_add(rng.range(50, 500));
+    let mut ins = vec![t];
+    for d in deltas {
+        let prev = t;
+        t = t.wrapping_add(*d as u64);
+        ins.push(prev.wrapping_add(rng.below(*d as u64)));
+        ins.push(t);
+        ins.push(t.wrapping_add(rng.below(50)));
+    }
+    let shift = t.wrapping_add(60).wrapping_sub(t0);
+    for x in clock.readings[at..].iter_mut() {
+        *x = x.wrapping_add(shift);
+    }
+    let n = ins.len() as u32;
+    clock.readings.splice(at..at, ins);
+    n
 }
 
 pub struct JitterRunCfg {
@@ -290,6 +336,18 @@ fn output_step(
 
     if let Out::U32(0) = out {
         st.count("probe:u32_output_zero");
+    }
+    // a collection that returns the value it started from (the previous output)
+    if half0 == false && p.m.n_collections > 0 {
+        let prev_pool = p.m.pool;
+        let same = match &out {
+            Out::U64(v) => *v == prev_pool,
+            Out::U32(v) => *v as u64 == (prev_pool & 0xffff_ffff) && cands.iter().any(|(m2, _)| m2.pool == prev_pool),
+            _ => false,
+        };
+        if same {
+            st.count("probe:output_repeats_previous");
+        }
     }
     for (m2, exp) in cands.iter() {
         if *exp == out && m2.reads() == reads1 {
@@ -530,6 +588,7 @@ impl Scenario for C12 {
             "probe:fork",
             "probe:clone_from",
             "probe:u32_output_zero",
+            "probe:output_repeats_previous",
             "fault:long_stuck",
             "fault:stall",
             "fault:backward",
